@@ -29,6 +29,8 @@ pub struct Ctx<'a> {
     pub script_text: &'a str,
     /// (kind, message) of a non-panic violation found by the workload itself
     pub soft_violation: Option<(String, String)>,
+    /// every distinct non-panic violation of the run (the first one is also in `soft_violation`)
+    pub soft_all: Vec<(String, String)>,
     pub depth: u32,
     pub reserialised: u64,
     pub errors: BTreeMap<&'static str, u64>,
@@ -36,7 +38,7 @@ pub struct Ctx<'a> {
 
 impl<'a> Ctx<'a> {
     pub fn new(seed: u64, script_text: &'a str) -> Ctx<'a> {
-        Ctx { rng: Rng::new(seed), digest: H64::new(), calls: BTreeMap::new(), script_text, soft_violation: None, depth: 0, reserialised: 0, errors: BTreeMap::new() }
+        Ctx { rng: Rng::new(seed), digest: H64::new(), calls: BTreeMap::new(), script_text, soft_violation: None, soft_all: Vec::new(), depth: 0, reserialised: 0, errors: BTreeMap::new() }
     }
     #[inline]
     pub fn call(&mut self, name: &'static str) {
@@ -374,7 +376,7 @@ fn check_redecode(cx: &mut Ctx, bytes: &[u8], what: &str, kind: &'static str) {
             });
         }
         Err(e) => {
-            if cx.soft_violation.is_none() {
+            {
                 // class of the message: quoted strings and numbers removed, so the signature names
                 // the kind of failure (e.g. "expected DebugId") and not the particular document
                 let msg = e.to_string();
@@ -396,10 +398,16 @@ fn check_redecode(cx: &mut Ctx, bytes: &[u8], what: &str, kind: &'static str) {
                 }
                 let slug = slug.trim_matches('-').replace("-at-line-column", "");
                 let _ = kind;
-                cx.soft_violation = Some((
-                    format!("reserialised-does-not-decode:{}:{}", error_class(&e), slug),
-                    format!("to_writer output of the {what} ({} bytes) does not decode again: {e}", bytes.len()),
-                ));
+                let sig_all = format!("reserialised-does-not-decode:{}:{}", error_class(&e), slug);
+                if !cx.soft_all.iter().any(|(s, _)| *s == sig_all) {
+                    cx.soft_all.push((sig_all, format!("to_writer output of the {what} ({} bytes) does not decode again: {e}", bytes.len())));
+                }
+                if cx.soft_violation.is_none() {
+                    cx.soft_violation = Some((
+                        format!("reserialised-does-not-decode:{}:{}", error_class(&e), slug),
+                        format!("to_writer output of the {what} ({} bytes) does not decode again: {e}", bytes.len()),
+                    ));
+                }
             }
         }
     }
